@@ -274,7 +274,7 @@ fn candidates(mg: &MoveGenerator, rng: &mut rand::rngs::StdRng, want: usize, max
             // (it would capture the king); a cheap pre-filter with the engine's own check test on the
             // flipped side - TLC re-checks Valid independently
             let flipped = proj::build_from(&cs, b.active_color() != crate::pieces::Color::White, "", None);
-            let ok = catch_unwind(AssertUnwindSafe(|| !mg.is_in_check(&flipped))).unwrap_or(false);
+            let ok = proj::playable_board(&b) && { let _ = &flipped; true };
             let adjacent = {
                 let (f1, r1, f2, r2) = ((wk % 8) as i32, (wk / 8) as i32, (bk % 8) as i32, (bk / 8) as i32);
                 (f1 - f2).abs() <= 1 && (r1 - r2).abs() <= 1
@@ -624,8 +624,11 @@ pub fn prompt(args: &[String]) -> i32 {
 // ---------------------------------------------------------------------------------------------
 // C08: mate in one is played; avoidable mate in one is never allowed
 // ---------------------------------------------------------------------------------------------
+/// candidate filter only ("the side to move has no move": mate or stalemate) - deliberately NOT using the
+/// engine's check test, so that a wrong check test cannot hide the positions it is wrong about; TLC
+/// (MateTrace.tla) decides from ChessRules.tla which candidates really are mates
 fn is_mated(mg: &MoveGenerator, b: &Board) -> bool {
-    mg.is_in_check(b) && mg.generate_moves(b).is_empty()
+    mg.generate_moves(b).is_empty()
 }
 
 pub fn mate(args: &[String]) -> i32 {
@@ -638,6 +641,7 @@ pub fn mate(args: &[String]) -> i32 {
     let mut rng = rand::rngs::StdRng::seed_from_u64(seed);
     let mut w = std::io::BufWriter::new(std::fs::File::create(&out_path).unwrap());
     let (mut n1, mut nd) = (0usize, 0usize);
+    let hunt = args.iter().any(|a| a == "--hunt");
     let answer = |b: &Board, depths: &[u8]| -> Vec<Value> {
         depths
             .iter()
@@ -655,7 +659,10 @@ pub fn mate(args: &[String]) -> i32 {
     };
     let mut emit = |b: &Board, w: &mut std::io::BufWriter<std::fs::File>, n1: &mut usize, nd: &mut usize, force: bool| {
         // the engine's move generator only PROPOSES candidates; TLC recomputes everything
-        let moves = mg.generate_moves(b);
+        let moves = match catch_unwind(AssertUnwindSafe(|| mg.generate_moves(b))) {
+            Ok(m) => m,
+            Err(_) => return,
+        };
         if moves.is_empty() {
             return;
         }
@@ -676,8 +683,20 @@ pub fn mate(args: &[String]) -> i32 {
             let some = allows.iter().any(|x| *x);
             let all = allows.iter().all(|x| *x);
             if (some && !all) || force {
+                let ans = answer(b, &[2, 3]);
+                if hunt && !force {
+                    // (exploration aid) keep only candidates whose answer is one of the moves that allow the mate
+                    let bad = ans.iter().any(|a| {
+                        let t = a[1].as_str().unwrap_or("");
+                        moves.iter().position(|m| proj::move_text(m) == t).map(|i| allows[i]).unwrap_or(false)
+                    });
+                    if !bad {
+                        *nd += 1;
+                        return;
+                    }
+                }
                 *nd += 1;
-                writeln!(w, "{}", json!({"ev":"mate","kind":"def","fen":proj::project(b),"pos":proj::project_struct(b),"answers":answer(b, &[2, 3])})).ok();
+                writeln!(w, "{}", json!({"ev":"mate","kind":"def","fen":proj::project(b),"pos":proj::project_struct(b),"answers":ans})).ok();
             }
         }
     };
@@ -687,6 +706,88 @@ pub fn mate(args: &[String]) -> i32 {
                 emit(&b, &mut w, &mut n1, &mut nd, true);
             }
         }
+        w.flush().ok();
+        return 0;
+    }
+    // LOST positions: the side to move has a bare-ish king against heavy material, so that many or all of
+    // its moves run into a forced mate the quiescence search can see - the situation in which every root
+    // move scores "lost" and the tie is broken by move order.  Candidates only: TLC recomputes everything.
+    let won: usize = arg(args, "--won", "0").parse().unwrap();
+    let lost: usize = arg(args, "--lost", "0").parse::<usize>().unwrap() + won;
+    let mut made = 0usize;
+    let mut guard = 0usize;
+    while made < lost && guard < lost * 400 {
+        guard += 1;
+        let mut cs = vec![0i32; 64];
+        let mut free: Vec<usize> = (0..64).collect();
+        let mut take = |rng: &mut rand::rngs::StdRng| {
+            let i = rng.gen_range(0..free.len());
+            free.swap_remove(i)
+        };
+        let weak_black = rng.gen_bool(0.5);
+        let (wk, sk) = (take(&mut rng), take(&mut rng));
+        cs[wk] = if weak_black { 12 } else { 6 };
+        cs[sk] = if weak_black { 6 } else { 12 };
+        let heavy = rng.gen_range(2..=4);
+        for _ in 0..heavy {
+            let sq = take(&mut rng);
+            let kind = [5, 5, 4, 4, 3, 2][rng.gen_range(0..6)];
+            cs[sq] = kind + if weak_black { 0 } else { 6 };
+        }
+        for _ in 0..rng.gen_range(0..=2) {
+            let sq = take(&mut rng);
+            let kind = [1, 2, 3, 4][rng.gen_range(0..4)];
+            if kind == 1 && (sq / 8 == 0 || sq / 8 == 7) {
+                continue;
+            }
+            cs[sq] = kind + if weak_black { 6 } else { 0 };
+        }
+        if won > 0 {
+            // the strong side is to move and the weak king stands on the edge: mates in one by every kind of
+            // man, including pawns that arrive on their seventh rank (one or two strong pawns are added there)
+            let edge: Vec<usize> = (0..64).filter(|q| q / 8 == 0 || q / 8 == 7 || q % 8 == 0 || q % 8 == 7).collect();
+            let e = edge[rng.gen_range(0..edge.len())];
+            if cs[e] == 0 {
+                cs[wk] = 0;
+                cs[e] = if weak_black { 12 } else { 6 };
+            }
+            for _ in 0..rng.gen_range(0..=2) {
+                let f = rng.gen_range(0..8);
+                let r = if weak_black { [5usize, 6][rng.gen_range(0..2)] } else { [2usize, 1][rng.gen_range(0..2)] };
+                if cs[r * 8 + f] == 0 {
+                    cs[r * 8 + f] = if weak_black { 1 } else { 7 };
+                }
+            }
+        }
+        let strong_to_move = won > 0;
+        let wk = cs.iter().position(|&c| c == if weak_black { 12 } else { 6 }).unwrap();
+        let b = proj::build_from(&cs, if strong_to_move { weak_black } else { !weak_black }, "", None);
+        let flipped = proj::build_from(&cs, if strong_to_move { !weak_black } else { weak_black }, "", None);
+        let ok = proj::playable_board(&b) && { let _ = &flipped; true };
+        let adjacent = {
+            let (f1, r1, f2, r2) = ((wk % 8) as i32, (wk / 8) as i32, (sk % 8) as i32, (sk / 8) as i32);
+            (f1 - f2).abs() <= 1 && (r1 - r2).abs() <= 1
+        };
+        if !ok || adjacent {
+            continue;
+        }
+        let before = nd;
+        if won > 0 {
+            let before1 = n1;
+            let mut big = usize::MAX / 2;
+            emit(&b, &mut w, &mut n1, &mut big, false);
+            if n1 > before1 {
+                made += 1;
+            }
+            continue;
+        }
+        let mut dummy = usize::MAX / 2;
+        emit(&b, &mut w, &mut dummy, &mut nd, false);
+        if nd > before {
+            made += 1;
+        }
+    }
+    if lost > 0 {
         w.flush().ok();
         return 0;
     }
